@@ -366,6 +366,30 @@ fn run_history(h: &Hist, hi: usize, ctx: &mut Ctx) -> Result<Final, Violation> {
                         other_text
                     );
                 }
+                if oi % 3 == 1 {
+                    // printed into a sink that reports an error part-way (a closed pipe);
+                    // what it took is a prefix of the canonical print, and the ordinary
+                    // print that follows is not disturbed by the abandoned one
+                    let want = print_entry(&model);
+                    let limit = (oi * 7 + hi * 3) % (want.len() + 1);
+                    let mut sink = crate::seams::FailingSink::new(limit);
+                    use std::fmt::Write as _;
+                    let r = write!(sink, "{}", sum);
+                    ctx.fault("sink_error");
+                    if r.is_err() {
+                        ctx.probe("print-abandoned-by-a-failing-sink");
+                    }
+                    ensure!(
+                        want.starts_with(&sink.out) && (r.is_err() || sink.out == want),
+                        "print-mismatch",
+                        "history {} op {}: a sink that fails after {} bytes received {:?}, which is no prefix of the canonical print {:?}",
+                        hi,
+                        oi,
+                        limit,
+                        sink.out,
+                        want
+                    );
+                }
                 let got = sum.to_string();
                 let want = print_entry(&model);
                 ensure!(
